@@ -28,6 +28,9 @@ def space_to_sx(space):
     raise TypeError(space)
 
 
+NARROW_MD = False     # set by gen_C04: MultiDiscrete spaces of a narrow integer dtype
+
+
 def build_space(spec, shapes=None, path=()):
     """spec: wire-format space; Dict children get keys k0, k1, ... inserted in reverse order
     (gymnasium sorts them back); Box shape: flat unless shapes[path] is given."""
@@ -37,6 +40,12 @@ def build_space(spec, shapes=None, path=()):
     if t == 1:
         return MultiBinary(spec[1])
     if t == 2:
+        if NARROW_MD and max(spec[1:]) <= 100:
+            # narrow dtypes whose product of sizes may overflow the dtype itself: the size and the
+            # encoding must not depend on the dtype the space happens to be stored in
+            k = (sum(spec[1:]) + len(path)) % 3
+            if k:
+                return MultiDiscrete(spec[1:], dtype=(np.int8 if k == 1 else np.int16))
         return MultiDiscrete(spec[1:])
     if t in (3, 4):
         shape = (shapes or {}).get(path, (len(spec) - 1,))
